@@ -964,3 +964,187 @@ package base
 //@   ensures fresh(k.RuleEntities) && k.RuleEntities != nil && emptymap(k.RuleEntities) && len(k.RuleEntities) == 0 && len(k.SortRules) == 0 && fresh(k.SortRulesIndexMap) && k.SortRulesIndexMap != nil && emptymap(k.SortRulesIndexMap)
 //@   modifies k.RuleEntities, k.SortRules, k.SortRulesIndexMap
 //@   nopanic
+
+// ---------------------------------------------------------------------------
+// AST construction (C01, C02, C03, C18): holders attach a child exactly where the grammar position says
+
+//@ func (*Expression).AcceptExpression
+//@   use twoslots(C01, e, ExpressionLeft, ExpressionRight, expression)
+
+//@ func (*Expression).AcceptExpressionAtom
+//@   use setonce(C01, e, ExpressionAtom, atom)
+
+//@ func (*Expression).AcceptMathExpression
+//@   use setonce(C01, e, MathExpression, atom)
+
+//@ func (*MathExpression).AcceptMathExpression
+//@   use twoslots(C01, e, MathExpressionLeft, MathExpressionRight, atom)
+
+//@ func (*MathExpression).AcceptExpressionAtom
+//@   use setonce(C01, e, ExpressionAtom, atom)
+
+//@ func (*ExpressionAtom).AcceptVariable
+//@   use setoncestr(C01, e, Variable, name)
+
+//@ func (*ExpressionAtom).AcceptConstant
+//@   use setonce(C01, e, Constant, cons)
+
+//@ func (*ExpressionAtom).AcceptFunctionCall
+//@   use setonce(C01, e, FunctionCall, funcCall)
+
+//@ func (*ExpressionAtom).AcceptMethodCall
+//@   use setonce(C01, e, MethodCall, methodCall)
+
+//@ func (*ExpressionAtom).AcceptThreeLevelCall
+//@   use setonce(C01, e, ThreeLevelCall, threeLevelCall)
+
+//@ func (*ExpressionAtom).AcceptMapVar
+//@   use setonce(C01, e, MapVar, mapVar)
+
+//@ func (*Assignment).AcceptMathExpression
+//@   use setonce(C02, a, MathExpression, me)
+
+//@ func (*Assignment).AcceptExpression
+//@   use setonce(C02, a, Expression, exp)
+
+//@ func (*Assignment).AcceptVariable
+//@   use setoncestr(C02, a, Variable, name)
+
+//@ func (*Assignment).AcceptMapVar
+//@   use setonce(C02, a, MapVar, mapVar)
+
+//@ func (*IfStmt).AcceptExpression
+//@   use setonce(C02, i, Expression, expr)
+
+//@ func (*IfStmt).AcceptStatements
+//@   use setonce(C02, i, StatementList, stmts)
+
+//@ func (*ElseIfStmt).AcceptExpression
+//@   use setonce(C02, ef, Expression, expr)
+
+//@ func (*ElseIfStmt).AcceptStatements
+//@   use setonce(C02, ef, StatementList, stmts)
+
+//@ func (*ElseStmt).AcceptStatements
+//@   use setonce(C02, e, StatementList, stmts)
+
+//@ func (*ForStmt).AcceptExpression
+//@   use setonce(C02, forStmt, Expression, expr)
+
+//@ func (*ForStmt).AcceptStatements
+//@   use setonce(C02, forStmt, StatementList, stmts)
+
+//@ func (*ForStmt).AcceptAssignment
+//@   use appendchild(C02, forStmt, Assignments, assignment)
+
+//@ func (*ForRangeStmt).AcceptStatements
+//@   use setonce(C02, forRangeStmt, StatementList, stmts)
+
+//@ func (*ReturnStatement).AcceptExpression
+//@   use setonce(C02 C11, rs, Expression, expr)
+
+//@ func (*RuleContent).AcceptStatements
+//@   use setonce(C02, t, Statements, stmts)
+
+//@ func (*FunctionCall).AcceptArgs
+//@   props C03
+//@   requires fc != nil
+//@   ensures result == nil && fc.FunctionArgs == funcArg
+//@   modifies fc.FunctionArgs
+//@   nopanic
+
+//@ func (*MethodCall).AcceptArgs
+//@   use setonce(C03, mc, MethodArgs, funcArg)
+
+//@ func (*ThreeLevelCall).AcceptArgs
+//@   use setonce(C03, tlc, MethodArgs, funcArg)
+
+//@ func (*ConcStatement).AcceptAssignment
+//@   use appendchild(C18, cs, Assignments, assignment)
+
+//@ func (*ConcStatement).AcceptFunctionCall
+//@   use appendchild(C18, cs, FunctionCalls, funcCall)
+
+//@ func (*ConcStatement).AcceptMethodCall
+//@   use appendchild(C18, cs, MethodCalls, methodCall)
+
+//@ func (*ConcStatement).AcceptThreeLevelCall
+//@   use appendchild(C18, cs, ThreeLevelCalls, threeLevelCall)
+
+// container access node (C03): the first accepted name is the container, the second the key variable
+//@ func (*MapVar).AcceptVariable
+//@   props C03
+//@   requires m != nil
+//@   ensures container: old(len(m.Name)) == 0 ==> result == nil && m.Name == name && m.Varkey == old(m.Varkey)
+//@   ensures keyvar: old(len(m.Name)) != 0 && old(len(m.Varkey)) == 0 ==> result == nil && m.Varkey == name && m.Name == old(m.Name)
+//@   ensures full: old(len(m.Name)) != 0 && old(len(m.Varkey)) != 0 ==> result != nil && m.Name == old(m.Name) && m.Varkey == old(m.Varkey)
+//@   modifies m.Name, m.Varkey
+//@   nopanic
+
+//@ func (*MapVar).AcceptInteger
+//@   props C03
+//@   requires m != nil
+//@   ensures result == nil && m.Intkey == i64
+//@   modifies m.Intkey
+//@   nopanic
+
+//@ func (*MapVar).AcceptString
+//@   use setoncestr(C03, m, Strkey, str)
+
+// argument holders (C03): each accepted argument becomes a NEW last entry of the list holding exactly that alternative
+//@ func (*Args).AcceptFunctionCall
+//@   props C03
+//@   arith int unchecked
+//@   requires as != nil
+//@   ensures appended: result == nil && len(as.ArgList) == old(len(as.ArgList)) + 1 && as.ArgList[old(len(as.ArgList))] != nil && as.ArgList[old(len(as.ArgList))].FunctionCall == funcCall && as.ArgList[old(len(as.ArgList))].Constant == nil && as.ArgList[old(len(as.ArgList))].MethodCall == nil && as.ArgList[old(len(as.ArgList))].ThreeLevelCall == nil && as.ArgList[old(len(as.ArgList))].MapVar == nil && as.ArgList[old(len(as.ArgList))].Expression == nil && len(as.ArgList[old(len(as.ArgList))].Variable) == 0
+//@   ensures prefix: forall qi :: 0 <= qi && qi < old(len(as.ArgList)) ==> as.ArgList[qi] == old(as.ArgList[qi])
+//@   modifies as.ArgList, elems(as.ArgList)
+
+//@ func (*Args).AcceptMethodCall
+//@   props C03
+//@   arith int unchecked
+//@   requires as != nil
+//@   ensures appended: result == nil && len(as.ArgList) == old(len(as.ArgList)) + 1 && as.ArgList[old(len(as.ArgList))] != nil && as.ArgList[old(len(as.ArgList))].MethodCall == methodCall && as.ArgList[old(len(as.ArgList))].Constant == nil && as.ArgList[old(len(as.ArgList))].FunctionCall == nil && as.ArgList[old(len(as.ArgList))].ThreeLevelCall == nil && as.ArgList[old(len(as.ArgList))].MapVar == nil && as.ArgList[old(len(as.ArgList))].Expression == nil && len(as.ArgList[old(len(as.ArgList))].Variable) == 0
+//@   ensures prefix: forall qi :: 0 <= qi && qi < old(len(as.ArgList)) ==> as.ArgList[qi] == old(as.ArgList[qi])
+//@   modifies as.ArgList, elems(as.ArgList)
+
+//@ func (*Args).AcceptThreeLevelCall
+//@   props C03
+//@   arith int unchecked
+//@   requires as != nil
+//@   ensures appended: result == nil && len(as.ArgList) == old(len(as.ArgList)) + 1 && as.ArgList[old(len(as.ArgList))] != nil && as.ArgList[old(len(as.ArgList))].ThreeLevelCall == threeLevelCall && as.ArgList[old(len(as.ArgList))].Constant == nil && as.ArgList[old(len(as.ArgList))].FunctionCall == nil && as.ArgList[old(len(as.ArgList))].MethodCall == nil && as.ArgList[old(len(as.ArgList))].MapVar == nil && as.ArgList[old(len(as.ArgList))].Expression == nil && len(as.ArgList[old(len(as.ArgList))].Variable) == 0
+//@   ensures prefix: forall qi :: 0 <= qi && qi < old(len(as.ArgList)) ==> as.ArgList[qi] == old(as.ArgList[qi])
+//@   modifies as.ArgList, elems(as.ArgList)
+
+//@ func (*Args).AcceptConstant
+//@   props C03
+//@   arith int unchecked
+//@   requires as != nil
+//@   ensures appended: result == nil && len(as.ArgList) == old(len(as.ArgList)) + 1 && as.ArgList[old(len(as.ArgList))] != nil && as.ArgList[old(len(as.ArgList))].Constant == cons && as.ArgList[old(len(as.ArgList))].FunctionCall == nil && as.ArgList[old(len(as.ArgList))].MethodCall == nil && as.ArgList[old(len(as.ArgList))].ThreeLevelCall == nil && as.ArgList[old(len(as.ArgList))].MapVar == nil && as.ArgList[old(len(as.ArgList))].Expression == nil && len(as.ArgList[old(len(as.ArgList))].Variable) == 0
+//@   ensures prefix: forall qi :: 0 <= qi && qi < old(len(as.ArgList)) ==> as.ArgList[qi] == old(as.ArgList[qi])
+//@   modifies as.ArgList, elems(as.ArgList)
+
+//@ func (*Args).AcceptMapVar
+//@   props C03
+//@   arith int unchecked
+//@   requires as != nil
+//@   ensures appended: result == nil && len(as.ArgList) == old(len(as.ArgList)) + 1 && as.ArgList[old(len(as.ArgList))] != nil && as.ArgList[old(len(as.ArgList))].MapVar == mapVar && as.ArgList[old(len(as.ArgList))].Constant == nil && as.ArgList[old(len(as.ArgList))].FunctionCall == nil && as.ArgList[old(len(as.ArgList))].MethodCall == nil && as.ArgList[old(len(as.ArgList))].ThreeLevelCall == nil && as.ArgList[old(len(as.ArgList))].Expression == nil && len(as.ArgList[old(len(as.ArgList))].Variable) == 0
+//@   ensures prefix: forall qi :: 0 <= qi && qi < old(len(as.ArgList)) ==> as.ArgList[qi] == old(as.ArgList[qi])
+//@   modifies as.ArgList, elems(as.ArgList)
+
+//@ func (*Args).AcceptExpression
+//@   props C03
+//@   arith int unchecked
+//@   requires as != nil
+//@   ensures appended: result == nil && len(as.ArgList) == old(len(as.ArgList)) + 1 && as.ArgList[old(len(as.ArgList))] != nil && as.ArgList[old(len(as.ArgList))].Expression == exp && as.ArgList[old(len(as.ArgList))].Constant == nil && as.ArgList[old(len(as.ArgList))].FunctionCall == nil && as.ArgList[old(len(as.ArgList))].MethodCall == nil && as.ArgList[old(len(as.ArgList))].ThreeLevelCall == nil && as.ArgList[old(len(as.ArgList))].MapVar == nil && len(as.ArgList[old(len(as.ArgList))].Variable) == 0
+//@   ensures prefix: forall qi :: 0 <= qi && qi < old(len(as.ArgList)) ==> as.ArgList[qi] == old(as.ArgList[qi])
+//@   modifies as.ArgList, elems(as.ArgList)
+
+//@ func (*Args).AcceptVariable
+//@   props C03
+//@   arith int unchecked
+//@   requires as != nil
+//@   ensures appended: result == nil && len(as.ArgList) == old(len(as.ArgList)) + 1 && as.ArgList[old(len(as.ArgList))] != nil && as.ArgList[old(len(as.ArgList))].Variable == name && as.ArgList[old(len(as.ArgList))].Constant == nil && as.ArgList[old(len(as.ArgList))].FunctionCall == nil && as.ArgList[old(len(as.ArgList))].MethodCall == nil && as.ArgList[old(len(as.ArgList))].ThreeLevelCall == nil && as.ArgList[old(len(as.ArgList))].MapVar == nil && as.ArgList[old(len(as.ArgList))].Expression == nil
+//@   ensures prefix: forall qi :: 0 <= qi && qi < old(len(as.ArgList)) ==> as.ArgList[qi] == old(as.ArgList[qi])
+//@   modifies as.ArgList, elems(as.ArgList)
+
